@@ -1253,7 +1253,7 @@ def run_redef(spec, rec, rng, pint):
     base = ["K = [temperature] = kelvin", "m = [length]"]
     for i in range(spec["n"]):
         a1, a2 = F(rng.randint(2, 9), rng.choice((1, 2, 4))), F(rng.randint(10, 19), rng.choice((1, 2, 4)))
-        o1, o2 = F(rng.randint(-50, 50)), F(rng.randint(60, 300))
+        o1, o2 = F(rng.choice([v for v in range(-50, 51) if v])), F(rng.randint(60, 300))   # offset 0 = no offset unit, no delta companion
         line = lambda a, o: f"degX = {a.numerator} / {a.denominator} * K; offset: {o.numerator} = dX"  # noqa: E731
         path = ("later-line", "define-again", "context")[i % 3]
         if path == "later-line":
